@@ -6,6 +6,7 @@ V = os.path.dirname(os.path.dirname(os.path.abspath(__file__)))
 sel = [a for a in sys.argv[1:] if not a.startswith("--")]
 only = [a.split("=",1)[1].split(",") for a in sys.argv[1:] if a.startswith("--only=")]
 props = only[0] if only else [f"C{i:02d}" for i in range(1,21)]
+jobs = max([int(a.split("=",1)[1]) for a in sys.argv[1:] if a.startswith("--jobs=")] or [1])
 assert subprocess.run(["git","-C","/repo","status","--porcelain","--untracked-files=no"],capture_output=True,text=True).stdout.strip()=="", "/repo dirty"
 rows=[]
 for f in sorted(glob.glob(f"{V}/benign/*.diff")):
@@ -15,13 +16,22 @@ for f in sorted(glob.glob(f"{V}/benign/*.diff")):
         r = subprocess.run(["git","-C","/repo","apply",f],capture_output=True,text=True)
         if r.returncode != 0:
             print(name,"PATCH-DOES-NOT-APPLY",r.stderr[:100]); rows.append((name,"-","PATCH-DOES-NOT-APPLY")); continue
-        for p in props:
-            t0=time.time()
+        def one(p):
             r = subprocess.run([f"{V}/run.sh", p, "quick"], capture_output=True, text=True, cwd=V)
             bad = r.returncode!=0 or any(l.startswith("VIOLATION") for l in r.stdout.splitlines())
             keys=[l.strip() for l in r.stdout.splitlines() if l.strip().startswith("key=")]
-            rows.append((name,p,"ALARM" if bad else "silent", keys[:2]))
+            if bad and jobs > 1:
+                # an alarm under parallel load is re-examined alone before it counts
+                r = subprocess.run([f"{V}/run.sh", p, "quick"], capture_output=True, text=True, cwd=V)
+                bad = r.returncode!=0 or any(l.startswith("VIOLATION") for l in r.stdout.splitlines())
+                keys=[l.strip() for l in r.stdout.splitlines() if l.strip().startswith("key=")]
             if bad: print(name,p,"ALARM exit",r.returncode,keys[:2],flush=True)
+            return (name,p,"ALARM" if bad else "silent", keys[:2])
+        # first check alone (it rebuilds the harness against the patched tree), the rest `jobs` at a time
+        rows.append(one(props[0]))
+        from concurrent.futures import ThreadPoolExecutor
+        with ThreadPoolExecutor(jobs) as ex:
+            rows.extend(ex.map(one, props[1:]))
         print(name,"done", sum(1 for x in rows if x[0]==name and x[2]=="silent"),"silent of",len(props),flush=True)
     finally:
         subprocess.run(["git","-C","/repo","checkout","--","."],check=True)
